@@ -122,10 +122,11 @@ def run_case(case):
     ref = gto.point_charge(rs, pts, q)  # (n, n, N)
     dg = np.abs(np.einsum("iin->in", ref))
     scale = np.sqrt(dg[:, None, :] * dg[None, :, :])
-    V = cm.call(point_charge_integral, cm.build(shells), pts.copy(), q.copy())
+    rkind = cm.REPS[(len(pts) + sum(len(s_["e"]) for s_ in shells)) % len(cm.REPS)]  # in-memory representation of the array arguments
+    V = cm.call(point_charge_integral, cm.build(shells), cm.rep(pts, rkind), cm.rep(q, rkind))
     cm.compare(V, ref, TOL, "point_charge_integral", "point_charge", viols, errs, scale=scale, ls=cm.ls_of(shells))
     evals = 1
-    N = cm.call(nuclear_electron_attraction_integral, cm.build(shells), pts.copy(), q.copy())
+    N = cm.call(nuclear_electron_attraction_integral, cm.build(shells), cm.rep(pts, rkind), cm.rep(q, rkind))
     nref = ref.sum(axis=2)
     nscale = np.abs(ref).sum(axis=2)
     # the property's yardstick for the matrix: sum over charges of the per-charge scales
@@ -141,7 +142,7 @@ def run_case(case):
     ls = cm.ls_of(shells)
     near = any(np.linalg.norm(pts - np.array(s["c"]), axis=1).min() < 1.0 for s in shells)
     nontrivial = near and (len(set(ls)) > 1 or len(ls) == 1)
-    return {"evals": evals, "nontrivial": bool(nontrivial), "classes": case.get("classes", []), "errs": errs, "violations": viols}
+    return {"evals": evals, "nontrivial": bool(nontrivial), "classes": case.get("classes", []) + ["rep:" + rkind], "errs": errs, "violations": viols}
 
 
 def summarize(cases, results, counts, lists, tier):
